@@ -106,17 +106,35 @@ func findCommodityReferences(symbol string, resolved *include.ResolvedJournal, c
 			tx := &journal.Transactions[i]
 			for j := range tx.Postings {
 				p := &tx.Postings[j]
-				if p.Amount != nil && p.Amount.Commodity.Symbol == symbol {
-					locations = append(locations, protocol.Location{
-						URI:   pathToURI(filePath),
-						Range: *astRangeToProtocol(p.Amount.Commodity.Range),
-					})
+				for _, c := range postingCommodities(p) {
+					if c.Symbol == symbol {
+						locations = append(locations, protocol.Location{
+							URI:   pathToURI(filePath),
+							Range: *astRangeToProtocol(c.Range),
+						})
+					}
 				}
 			}
 		}
 	}
 
 	return sortAndDedup(locations)
+}
+
+// postingCommodities returns every commodity occurrence of a posting: that of its amount,
+// of its cost and of its balance assertion.
+func postingCommodities(p *ast.Posting) []*ast.Commodity {
+	var commodities []*ast.Commodity
+	if p.Amount != nil {
+		commodities = append(commodities, &p.Amount.Commodity)
+	}
+	if p.Cost != nil {
+		commodities = append(commodities, &p.Cost.Amount.Commodity)
+	}
+	if p.BalanceAssertion != nil {
+		commodities = append(commodities, &p.BalanceAssertion.Amount.Commodity)
+	}
+	return commodities
 }
 
 func findPayeeReferences(payee string, resolved *include.ResolvedJournal, currentPath string, currentJournal *ast.Journal) []protocol.Location {
